@@ -14,26 +14,26 @@ except Exception:
 CLAIMED = set(open(os.path.join(HERE, "tools", "claimed.txt")).read().split())
 
 LEVEL_TEXT = {
- "C01": "Every RFC 8259 text of a small scope (all trees up to N nodes over boundary alphabets, all spellings and whitespace layouts, five destination states, two pool geometries) is parsed by the real library and compared with an independent parser; exhaustive inside the scope, silent outside it.",
+ "C01": "Every RFC 8259 text of a small scope (all trees up to N nodes over boundary alphabets, all spellings and whitespace layouts, seven destination states, documents at the pool-table boundaries re-used and nested in parsed hosts, two pool geometries) is parsed by the real library and compared with an independent parser; exhaustive inside the scope, silent outside it.",
  "C02": "Every document of a small scope is serialized to every destination kind and into every buffer capacity 0..len+2 (exactly sized heap blocks under ASan) and the text is re-parsed by an independent parser; exhaustive inside the scope.",
- "C03": "Every byte string up to a length over structural alphabets, every short MessagePack string, every truncation and single-byte substitution of a corpus, through 12 input kinds x 6 limits x 14 filters x 5 builds, under ASan/UBSan with cross-kind equality; memory safety and source independence are decided for that space only.",
+ "C03": "Every byte string up to a length over structural alphabets, every short MessagePack string, every truncation and single-byte substitution of a corpus, through 13 input kinds (incl. an iterator range over non-contiguous storage) x 6 limits x 14 filters x 5 builds, under ASan/UBSan with cross-kind equality; memory safety and source independence are decided for that space only.",
  "C04": "Explicit-state breadth-first search over API histories of the real library (state = history replayed on fresh documents, de-duplicated on model + concrete pool/free-list/string-pool key); every transition is compared with an ordered-tree reference model and concrete-state invariants. All histories up to the stated depth over the stated alphabet are covered.",
- "C05": "For every (reached state, probe operation) scenario and every small deserialization input, every single allocator failure position, every fail-from-k plan and every pair of positions is executed on the real library; crash-freedom, reporting, frame condition and memory return are checked on each.",
- "C06": "The C04 search run on ledger allocators (exactly-once release, allocator identity, free-list-before-new-pool probe, reference counts, frozen allocators during reads) plus deserializer inputs around every length boundary and hostile headers with a memory bound; exhaustive inside those bounds.",
+ "C05": "For every (reached state, probe operation) scenario and every small deserialization input, every single allocator failure position, every fail-from-k plan and every pair of positions is executed on the real library, and every failing schedule is continued into every enabled second operation (still failing, or with the allocator working again and no clear() in between); crash-freedom, reporting, frame condition and memory return are checked on each.",
+ "C06": "The C04 search run on ledger allocators (exactly-once release, allocator identity, free-list-before-new-pool probe, reference counts, frozen allocators during reads) a foreign-heap clause (the library's own malloc calls are counted), plus deserializer inputs around every length boundary and hostile headers with a memory bound; exhaustive inside those bounds.",
  "C07": "All documents of a small scope are round-tripped through JSON, MessagePack and JSON->MessagePack and compared by independent decoders and by the library's own equality; exhaustive inside the scope.",
  "C08": "Documents concentrated on every header-width boundary of MessagePack (and all 2^32 float32 values in the thorough tier) are serialized and decoded by an independent strict decoder; exhaustive over the listed boundary sets.",
- "C09": "Every tree of a small scope is encoded by an independent encoder in every legal width combination (deviation-bounded), and the full text, every proper prefix and every single-byte substitution are decoded by the library and by an independent decoder; two floating-point configurations.",
- "C10": "All token sequences up to a length over a 46-token alphabet (and character-level micro-alphabets for comments, escapes and numbers, and number tokens around the 63-character limit) are classified by the library and by an independent three-valued recogniser, per option build.",
- "C11": "All (input, filter) pairs from two bounded tree generators, as JSON and as MessagePack, at the default nesting limit and at the exact depth of the input, compared with a projection function applied to the unfiltered result; three builds.",
- "C12": "Literal families (every exponent -340..340 x mantissa shapes x point positions, digit runs to 1200 and 2^16, literals padded to 61-63 characters) and binary values (all 2^32 floats in thorough, stratified doubles) against glibc strtold / __int128 with exactly the tolerances of the statement; PROGMEM table build included.",
- "C13": "All 2^32 bit patterns of each 32-bit storage kind x 12 target types (thorough), boundary sets for 64-bit kinds, numeric strings of every length 1..1300 (also in a PROGMEM build), copyArray over all shape pairs with guard elements, against an interval oracle in __int128.",
+ "C09": "Every tree of a small scope is encoded by an independent encoder in every legal width combination (deviation-bounded), and the full text, every proper prefix and every single-byte substitution are decoded by the library and by an independent decoder, also through 8 other source kinds and into 5 non-fresh destinations; wide and deep containers; double / single precision, 32-bit integer storage and small-pool builds.",
+ "C10": "All token sequences up to a length over a 46-token alphabet (character-level micro-alphabets, every byte value substituted or inserted at every position of accepted texts, unquoted keys, number tokens around the 63-character limit, nesting limits 10 / 2 / 1) are classified by the library and by an independent three-valued recogniser, per option build.",
+ "C11": "All (input, filter) pairs from two bounded tree generators, as JSON and as MessagePack, at the default nesting limit and at the exact depth of the input, compared with a projection function applied to the unfiltered result; further leaf and key spellings and long / wide MessagePack payloads in discarded positions; three builds.",
+ "C12": "Literal families (every exponent -340..340 x mantissa shapes x point positions, digit runs to 1200 and 2^16, literals padded to 61-63 characters, exponent fields of 3..40 digits and with up to 65000 leading zeros, owned and linked strings) and binary values (all 2^32 floats in thorough, stratified doubles) against glibc strtold / __int128 with exactly the tolerances of the statement; PROGMEM table build included.",
+ "C13": "All 2^32 bit patterns of each 32-bit storage kind x 12 target types (thorough), boundary sets for 64-bit kinds, rounding-midpoint families for 64-bit kinds, numeric strings of every length 1..1300 and around 2^15..2^17 through six entry points (also in PROGMEM and single-precision builds), copyArray over all shape pairs with guard elements, against an interval oracle in __int128.",
  "C14": "Full matrix string alphabet x 12 source kinds x 47 uses, each run pairwise-differentially against a reference kind with the source buffer overwritten/freed after the call, plus an exhaustive sharing grid and aliasing-operand family; inspector and ledger as additional oracles.",
- "C15": "Every nesting limit 0..255 x every depth up to 300 (+1000, 5000) x 50 input families x 9 filter placements for both formats, plus stack measurements (constant in input length, linear in L) in default and comments-enabled builds.",
- "C16": "All sequences of up to 3 documents x separators x suffixes x 6 readers (byte-wise, block-wise, istream windows, Arduino Stream, discard-all filter), position-counting readers and a prefix memo; default and single-precision builds.",
- "C17": "All 65536 code units x 3 hex casings x 5 positions, unpaired surrogates, all 2^20 surrogate pairs (thorough), all 1- and 2-byte strings as value and key, escapes straddling every string-builder capacity step.",
- "C18": "All ordered pairs over a 193-value alphabet (1569 with nested containers) x 6 operators x 9 operand forms x both documents placements, and every value against C++ scalars of every type on both sides; five algebraic laws and a reference comparator.",
- "C19": "An abstract pool machine checked over every pool geometry and bound to the real allocator core by trace equality (one compiled unit per geometry); the C04 search repeated under a matrix of -D configurations; limit-reaching fill/remove/refill scripts and maximum-length strings through five entry points.",
- "C20": "All schedules with at most P preemptions of 2-3 threads running library operations on distinct documents, switching at the library's call-out seams (allocator, reader, writer), each compared with the sequential run; default and small-pool geometries; a separate free-running ThreadSanitizer pass.",
+ "C15": "Every nesting limit 0..255 x every depth up to 300 (+1000, 5000) x 73 input families x 9 filter placements for both formats, builds with other default limits, plus stack measurements (constant in input length, linear in L) in default and comments-enabled builds.",
+ "C16": "All sequences of up to 3 documents x separators x suffixes x 8 readers (byte-wise, block-wise, istream windows, Arduino Stream, three with a discard-all filter), position-counting readers and a prefix memo; default, single-precision and comments / NaN / Infinity builds.",
+ "C17": "All 65536 code units x 3 hex casings x 5 positions, unpaired surrogates, all 2^20 surrogate pairs (thorough), all 1- and 2-byte strings as value and key, escapes straddling every string-builder capacity step, escaped bytes at every offset of longer strings; host, -funsigned-char and Arduino (PROGMEM) builds.",
+ "C18": "All ordered pairs over a 215-value alphabet (1590 with nested containers) x 6 operators x 15 operand forms x both document placements, every value against itself, and every value against C++ scalars of every type on both sides; five algebraic laws and a reference comparator.",
+ "C19": "An abstract pool machine checked over every pool geometry and bound to the real allocator core by trace equality (one compiled unit per geometry); the C04 search repeated under a matrix of -D configurations; limit-reaching fill/remove/refill scripts, documents that are shrunk / moved / swapped / copied and then grown to the limit, the deserializers at the slot limit, and maximum-length strings through seven entry points.",
+ "C20": "All schedules with at most P preemptions of 2-3 threads running library operations on distinct documents, switching at the library's call-out seams (allocator, reader, writer), each compared with the sequential run; default and small-pool geometries and the Arduino option set (String / Print / Stream / flash); a separate free-running ThreadSanitizer pass in cold children.",
 }
 checks, na = [], []
 for p in props:
